@@ -24,7 +24,7 @@ ASSUMPTIONS = [
     "for DSSR, LW values that differ from the 18 class names only by letter case are not judged",
 ]
 ALPHA = "nasctCTWHSwhBRP0359"
-ALPHA_EXT = ALPHA + "1246789" + "x" + "-"
+ALPHA_EXT = ALPHA + "1246789" + "x" + "-" + "bpr"  # lower-case b, p, r: mis-cased backbone labels such as 0br, 3bph
 _tier = ["quick"]
 
 
